@@ -12,7 +12,7 @@ pub struct World {
     pub vsel: u64,
 }
 
-pub const AUTO_VERBOSITY_NOTE: &str = "runs whose case does not fix a verbosity use 0 / -v / -vv / -vvv for 70 / 10 / 10 / 10 % of the chains (chosen by a hash of the indexed block hashes, so that partner runs of one case share it); likewise 40 % of the chains are run with the blockchain directory and the dump folder spelled differently on the command line (relative to the working directory, with trailing slashes, with ./ and /../ detours) and TZ set to a far-off zone";
+pub const AUTO_VERBOSITY_NOTE: &str = "runs whose case does not fix a verbosity use 0 / -v / -vv / -vvv for 70 / 10 / 10 / 10 % of the chains (chosen by a hash of the indexed block hashes, so that partner runs of one case share it); a fifth of the chains write into a dump folder that already holds longer stale temporary files of the same callback; likewise 40 % of the chains are run with the blockchain directory and the dump folder spelled differently on the command line (relative to the working directory, with trailing slashes, with ./ and /../ detours) and TZ set to a far-off zone";
 
 impl World {
     /// writes the plan into <scratch>/data
@@ -55,8 +55,32 @@ impl World {
         }
         o
     }
+    /// length of the stale temporary files of a 'dirty' dump folder: longer than anything the run can write
+    /// (rows are a few times the size of the serialised data they print)
+    fn stale_len(&self) -> usize {
+        use std::os::unix::fs::MetadataExt;
+        let mut total = 0u64;
+        if let Ok(rd) = std::fs::read_dir(self.data()) {
+            for e in rd.flatten() {
+                if let Ok(m) = std::fs::metadata(e.path()) {
+                    if m.is_file() {
+                        total += m.len().min(m.blocks() * 512);
+                    }
+                }
+            }
+        }
+        (total.min(8 << 20) as usize) * 8 + (64 << 10)
+    }
     pub fn run(&self, o: &RunOpts) -> Result<RunOut, String> {
         let d = self.new_dump();
+        // a fifth of the chains write into a dump folder that still holds the (longer) temporary files of an
+        // interrupted earlier run of the same callback: the result must be what a fresh folder gives
+        if (self.vsel >> 27) % 5 == 0 && o.pause_on.is_none() {
+            let junk = vec![b'7'; self.stale_len()];
+            for stem in o.callback.stems() {
+                std::fs::write(d.join(format!("{}.csv.tmp", stem)), &junk).map_err(|e| e.to_string())?;
+            }
+        }
         let r = run_tool(&self.data(), &d, &self.with_verbosity(o))?;
         let _ = std::fs::remove_dir_all(&d);
         Ok(r)
